@@ -153,6 +153,15 @@ def run(c, facts, tier):
                             if m_:
                                 key = codegen.split_top(m_.group(2))[0].strip()
                                 absent = absent or ("self.%s.get(%s)=None" % (m_.group(1), key)) in (p.cond or "")
+                                # the cache is per *port*: a key that also names the record terminator gives one port a second
+                                # (port, mutex) record — and a second mutex — for every terminator used on it
+                                fn_ = facts.fn(codegen.mgr_key(facts, M, meth))
+                                tpos = ["@%d" % i_ for i_, (n_, t_) in enumerate([p_ for p_ in fn_.params if p_[0] != "self"]) if "Option<char>" in (t_ or "").replace(" ", "")]
+                                hit_ = [t_ for t_ in tpos if re.search(re.escape(t_) + r"(?!\d)", key)]
+                                parts_ = codegen.split_top(m_.group(2))
+                                if "OpenPort{" in key or not any("OpenPort{" in x_ for x_ in parts_[1:]):
+                                    continue  # the record is part of the key (the printer table keyed by port and terminator), not the cached value
+                                c.ob("C16.delegation", site, "the (port, mutex) record is cached per port, not per (port, terminator) [%s]" % (p.cond or "")[:40], not hit_, "cache key `%s`%s" % (key, "" if not hit_ else " contains the terminator parameter %s: printers with different terminators on the same port lock different mutexes" % hit_), witness="-print -printf '%p %s\\n' with 2 threads" if hit_ else None)
                     c.ob(
                         "C16.delegation",
                         site,
@@ -163,6 +172,7 @@ def run(c, facts, tier):
                     )
     from .. import report as _rep
 
+    _rep.require(c, facts, "c02", "C16.delegation", "format records", "a format that ends in the newline escape is emitted with that newline at its end", lambda o: o["rule"] in ("C02.elements", "C02.fmt", "C02.fmt-arity"), "plain mode relies on the last element of the *format* (C10.predicate); that the emitted template is the concatenation of what every element contributes, in order and with nothing cut, is decided by the C02 element tables")
     _rep.require(c, facts, "c10", "C16.delegation", "mode choice", "plain mode is used only when every record is a newline-terminated line", lambda o: o["rule"] in ("C10.predicate", "C10.choice"), "in plain mode records of different printers share stdout as lines; that every stdout record then ends in a newline is the mode rule decided by C10.predicate/C10.choice")
     # C16.no-bypass: shared with C10.all-framed
     arows = codegen.expand(codegen.table(facts, "<Action as TargetScheme>::compile"))
